@@ -261,6 +261,63 @@ class Harness:
             return list(s.data.items)
         raise Unsupported("utf8() of " + type(s).__name__)
 
+    # -- helpers added for contracts/at4_ext_timer.py (each has a native twin below) --------------
+    def subset(self, name, universe):
+        """A symbolic subset of a concrete universe (one symbolic bool per element, no forking)."""
+        from .gsets import GuardedSet
+        return GuardedSet([(self.bool(f"{name}_{e}"), e) for e in universe])
+
+    def slice(self, buf, lo, hi=None):
+        """buf[lo:hi] with Python slicing semantics (bounds may be symbolic; may fork on clamping)."""
+        from .interp import SymSlice
+        if is_sym(lo) or is_sym(hi):
+            return self.it.getitem(buf, SymSlice(lo, hi, None))
+        return self.it.getitem(buf, slice(lo, hi))
+
+    def split_at(self, buf, n):
+        """(list of the first n byte values, the rest) of a buffer known to hold at least n bytes;
+        also works on a concatenation whose tail has symbolic length."""
+        from .pybuiltins import Rope
+        if isinstance(buf, Rope):
+            head = buf.parts[0]
+            if isinstance(head, BytesVal) and len(head.items) == n and len(buf.parts) == 2:
+                return list(head.items), buf.parts[1]
+            if isinstance(head, BytesVal) and len(head.items) > n:
+                return list(head.items[:n]), Rope([BytesVal(head.items[n:])] + buf.parts[1:])
+            raise Unsupported("split_at inside a symbolic-length part")
+        if isinstance(buf, (bytes, bytearray)):
+            buf = BytesVal.of(buf)
+        if isinstance(buf, BytesVal):
+            if len(buf.items) < n:
+                raise Unsupported("split_at beyond the end of the buffer")
+            return list(buf.items[:n]), BytesVal(buf.items[n:])
+        if isinstance(buf, ABytes):
+            items = []
+            for i in range(n):
+                b = buf.at(i)
+                self.path.assume(And(b >= 0, b <= 255))
+                items.append(b)
+            return items, ABytes(buf.arr, buf.off + n, buf.ln - n, buf.name)
+        raise Unsupported(f"split_at() of {type(buf).__name__}")
+
+    def stub(self, label, **methods):
+        """An object whose methods are the given Python callables (a component specified by a
+        contract instead of by code): obj.<name>(*args) calls methods[name](*args)."""
+        class _Stub:
+            def __repr__(s):
+                return f"<stub {label}>"
+
+            def py_getattr(s, it, name):
+                if name in methods:
+                    return Builtin(f"{label}.{name}", methods[name])
+                raise it.exc("AttributeError", name)
+
+        return _Stub()
+
+    def same(self, a, b):
+        """Python `a is b`."""
+        return self.it.identical(a, b)
+
     # -- logic -------------------------------------------------------------------------------
     def assume(self, c, why=None):
         self.path.assume(c, why)
@@ -435,6 +492,23 @@ class NativeHarness:
 
     def utf8(self, s):
         return list(s.encode("utf-8"))
+
+    # -- native twins of the helpers added for contracts/at4_ext_timer.py ------------------------
+    def subset(self, name, universe):
+        return {e for e in universe if self.bool(f"{name}_{e}")}
+
+    def slice(self, buf, lo, hi=None):
+        return buf[lo:hi]
+
+    def split_at(self, buf, n):
+        return list(buf[:n]), buf[n:]
+
+    def stub(self, label, **methods):
+        return type("Stub_" + "".join(c if c.isalnum() else "_" for c in label), (),
+                    {k: staticmethod(v) for k, v in methods.items()})()
+
+    def same(self, a, b):
+        return a is b
 
     def assume(self, c, why=None):
         if not bool(c):
